@@ -16,7 +16,7 @@ CLAIMED = {
         technique="Coq proof over translator-regenerated tables + exhaustive model/implementation correspondence",
     ),
     "C01": dict(
-        text="Coq theorems over a hand model of the whole fuzzy dispatch (prefilters, greedy scan, equal-length and single-char shortcuts, slab guard, DP setup): the greedy entry point returns Match exactly when the needle is a subsequence of the normalised haystack and never panics (C01_greedy_decision); the optimal entry point likewise decides the relation and never panics (C01_fuzzy_decision, using the DP panic-freedom proof); the entry points agree and the decision is representation-independent outside known finding K1 (refuted witness included). All for every configuration and every string length. Model tied to the code by a differential run (decision of both variants of both entry points, 16 configs x 4 representation pairs, sizes beyond the matrix/u16 limits; thorough: exhaustive small strings) and by the spec oracle subseq_b on the implementation's answers.",
+        text="Coq theorems over a hand model of the whole fuzzy dispatch (prefilters, greedy scan, equal-length and single-char shortcuts, slab guard, DP setup): the greedy entry point returns Match exactly when the needle is a subsequence of the normalised haystack and never panics (C01_greedy_decision); the optimal entry point likewise decides the relation and never panics (C01_fuzzy_decision, using the DP panic-freedom proof); the entry points agree and the decision is representation-independent outside known finding K1 (refuted witness included); K1 itself is characterised exactly (C01_K1_characterised: inside the known class every algorithm answers NoMatch for every non-empty needle, so the excluded class hides no panic or wrong match; C01_empty_needle: the empty needle matches with score 0). All for every configuration and every string length. Model tied to the code by a differential run (decision of both variants of both entry points, 16 configs x 4 representation pairs, sizes beyond the matrix/u16 limits; thorough: exhaustive small strings) and by the spec oracle subseq_b on the implementation's answers.",
         design_ref="DESIGN.md section 6, C01",
         note="Trusted: Coq kernel, translator (constants, presets, slab guard), extraction, harness; memchr family and Rust std char predicates modelled by their specification. Known finding K1 excluded by hypothesis and listed in known_findings.json. Axioms: none.",
         technique="Coq proof (list induction, greedy-scan completeness) over a hand model + differential correspondence",
